@@ -558,8 +558,19 @@ def rf132(run):
                         continue
                     n += 1
                     ok = g.name in RF132_READERS
+                    reason = RF132_READERS.get(g.name)
+                    if not ok:
+                        # a test for "has the function been generated" yields no address value
+                        p_ = par
+                        while p_ is not None and p_['k'] in F.CASTS + ('ParenExpr',):
+                            p_ = g.parent_of(p_)
+                        if p_ is not None and p_['k'] == 'BinaryOperator' and p_['op'] in ('==', '!=') and \
+                                any(F.const_value(F.strip(c_)) == 0 or F.src(F.strip(c_)) in ('NULL', '((void*)0)', '((void *)0)') for c_ in p_['c']):
+                            ok, reason = True, 'null test only'
+                        elif p_ is not None and p_['k'] == 'UnaryOperator' and p_['op'] == '!':
+                            ok, reason = True, 'null test only'
                     run.functions_analysed.add((u, g.name))
-                    run.ob(rule, (g.name, x['l']), ok, {'site': '%s:%d %s' % (g.relfile(), x['l'], g.name), 'field': x['n'], 'reason': RF132_READERS.get(g.name)})
+                    run.ob(rule, (g.name, x['l']), ok, {'site': '%s:%d %s' % (g.relfile(), x['l'], g.name), 'field': x['n'], 'reason': reason})
                     if not ok:
                         run.violation(rule, g, 'code address used as a value', '%s reads `%s` (line %d): outside the thunk redirection and the '
                                       'patching of call instructions the code address must not stand for the function — an address taken after '
@@ -667,3 +678,50 @@ def rf151(run):
                           '(`third ()` of a three-element `.lc` section: 33 interpreted, 0 generated)' % e, line=ret['l'])
     run.ob(rule, ('exists',), True)
     return n + 1
+
+
+# ---------------------------------------------------------------------------------------------
+# RF177: bb stubs are created only for a function whose generator state was just built
+# ---------------------------------------------------------------------------------------------
+
+def rf177(run):
+    import rf_proto
+    rule = 'RF177'
+    run.rule(rule, 'generator: generate_func_code returns at once — without touching curr_func_item or the CFG — for a function that already '
+                   'has machine code (a module loaded and linked a second time).  Every function that calls create_bb_stubs after '
+                   'generate_func_code does so under a test of `machine_code` (the whole-function code is used instead); otherwise the stubs '
+                   'are built from the state left by the function generated before, and func_item->data is NULL (D116)')
+    tu = run.tu('gen')
+    n = 0
+    for g in tu.func_list:
+        if g.body is None:
+            continue
+        calls = {x.get('callee'): x for x in g.walk() if x['k'] == 'CallExpr'}
+        if 'generate_func_code' not in calls or 'create_bb_stubs' not in calls:
+            continue
+        cfg = g.cfg
+        run.functions_analysed.add(('gen', g.name))
+        b = cfg.block_of(calls['create_bb_stubs'])
+        conds = rf_proto.dominating_conditions(cfg, b) if b is not None else []
+        ok = any('machine_code' in c for c, t in conds)
+        if not ok:
+            # the guard may test a local that was set under a test of machine_code (`if (…machine_code != NULL) full_p = TRUE;`)
+            import re
+            for x in g.walk():
+                if x['k'] == 'BinaryOperator' and x['op'] == '=' and F.strip(x['c'][0])['k'] == 'DeclRefExpr':
+                    v = F.strip(x['c'][0])['n']
+                    if not any(re.search(r'(?<![A-Za-z0-9_>.])%s(?![A-Za-z0-9_])' % re.escape(v), c) for c, t in conds):
+                        continue
+                    xb = cfg.block_of(x)
+                    under = rf_proto.dominating_conditions(cfg, xb) if xb is not None else []
+                    if 'machine_code' in F.src(x['c'][1]) or any('machine_code' in c for c, t in under):
+                        ok = True
+        n += 1
+        run.ob(rule, (g.name,), ok, {'function': g.name, 'conditions in front of create_bb_stubs': ['%s=%s' % (c[:60], t) for c, t in conds]})
+        if not ok:
+            run.violation(rule, g, 'bb stubs for an already generated function', '%s calls create_bb_stubs after generate_func_code without '
+                          'looking at `machine_code`: for a function that already has whole-function code generate_func_code has '
+                          'returned early, and the stubs are created from stale generator state (crash when a module is loaded again and '
+                          'linked with the lazy bb interface)' % g.name, line=calls['create_bb_stubs']['l'])
+    run.control(rule, 'the lazy bb entry point found', n >= 1)
+    return n
